@@ -25,6 +25,7 @@ class Knobs:
         self.catch_abrupt = True      # throw/return/break inside catch bodies
         self.zero_div = True
         self.closure_bias = 0.0       # extra probability of closure declarations / calls per statement
+        self.wrap_target = False      # add a method `w` (C15: wrapped as plain / generator / async by the check)
         self.deep_rec = 0             # >0: add a recursive method `fdeep` and call it with depths up to this
         self.d14_shapes = False       # abrupt exits from catch bodies of a `do` that has a `finally`
         self.__dict__.update(kw)
@@ -239,7 +240,7 @@ class Gen:
             n = self.fresh("a")
             inner.vars[n] = (p, True)
             params.append(f"({n} {p})")
-        c2 = dict(ctx, loops=[], in_fn=True, ret=ret, in_finally=False, acc=[0], mult=1)
+        c2 = dict(ctx, loops=[], in_fn=True, ret=ret, in_finally=False, acc=[0], mult=1, in_w=False)
         if self.r.random() < 0.5 or d <= 0:
             body = f"(expr {self.expr(inner, ret, max(d - 1, 0), c2)})"
         else:
@@ -257,7 +258,11 @@ class Gen:
         for _ in range(n):
             out.append(self.stmt(sc, d, ctx))
         if final_ty is not None:
-            out.append(f"(expr {self.expr(sc, final_ty, 1, ctx)})")
+            e = self.expr(sc, final_ty, 1, ctx)
+            if ctx.get("in_w"):
+                # known finding C15-generator-result-is-call: the result of the wrapped body is never a bare call
+                e = f"(bin add (int 0) {e})"
+            out.append(f"(expr {e})")
         return " ".join(out)
 
     def stmt(self, sc, d, ctx):
@@ -278,6 +283,9 @@ class Gen:
                 call = f"(callc (var {n}) {args})".replace(" )", ")")
                 return f"(print {call})" if r.random() < 0.7 else f"(expr {call})"
             return self.decl(sc, d, ctx, force_closure=True)
+        if ctx.get("in_w") and r.random() < 0.18 and not ctx.get("pure"):
+            self.features.add("yield-mark")
+            return f"(print (bin add (int 0) {self.int_expr(sc, 1, ctx)}))"
         if c < 0.22:
             return self.decl(sc, d, ctx)
         if c < 0.34:
@@ -313,7 +321,8 @@ class Gen:
             return None
         if ctx["loops"]:
             opts += ["brk", "cont"]
-        if ctx["in_fn"]:
+        # known finding C15-generator-return-skips-finally: no `return` inside a `do` of the wrapped body
+        if ctx["in_fn"] and not (ctx.get("in_w") and ctx.get("in_try")):
             opts += ["ret"]
         if self.k.exceptions and (ctx["in_fn"] or ctx.get("in_try") or self.r.random() < 0.15):
             opts += ["throw"]
@@ -330,7 +339,10 @@ class Gen:
             s = f"({o} {lbl})"
         elif o == "ret":
             self.features.add("return")
-            s = f"(ret {self.expr(sc, ctx['ret'], 1, ctx)})"
+            e = self.expr(sc, ctx['ret'], 1, ctx)
+            if ctx.get("in_w"):
+                e = f"(bin add (int 0) {e})"
+            s = f"(ret {e})"
         else:
             self.features.add("throw")
             if r.random() < 0.6:
@@ -446,6 +458,17 @@ class Gen:
             self.cost[name] = 1 + ctx["acc"][0]
             plist = " ".join(f"({p} {t})" for p, t in ps)
             texts.append(f"(def {name} ({plist}) {ret} {body})")
+        wsig = None
+        if self.k.wrap_target:
+            ps = [(self.fresh("p"), INT) for _ in range(r.randint(0, 2))]
+            wsc = Scope(None, boundary=True)
+            for p_, t_ in ps:
+                wsc.vars[p_] = (t_, False)   # generator parameters are not assignable in Elk
+            wctx = {"loops": [], "in_fn": True, "ret": INT, "rank": 10 ** 5, "in_finally": False, "acc": [0], "mult": 1, "in_w": True}
+            wbody = self.block(wsc, self.k.max_depth, wctx, final_ty=INT, n=r.randint(2, 6))
+            plist = " ".join(f"({p_} {t_})" for p_, t_ in ps)
+            texts.append(f"(def w ({plist}) int {wbody})")
+            wsig = ps
         if self.k.deep_rec:
             texts.append("(def fdeep ((n int)) int (if (bin le (var n) (int 0)) ((ret (int 0))) ()) "
                          "(expr (bin add (int 1) (calld fdeep (bin sub (var n) (int 1))))))")
@@ -466,4 +489,8 @@ class Gen:
                 main += f" (decl {h} _ (calld {name} {args}))".replace(" )", ")")
                 for _ in range(2):
                     main += f" (print (callc (var {h}) {cargs}))".replace(" )", ")")
+        if wsig is not None:
+            for _ in range(r.randint(1, 3)):
+                args = " ".join(f"(int {r.randint(-2, 6)})" for _ in wsig)
+                main += f" (print (calld w {args}))".replace(" )", ")")
         return f"(prog {self.mod} (defs {' '.join(texts)}) (main {main}))"
